@@ -110,6 +110,20 @@ Section Statements.
     snd (execute_streamed A eqb cands check arrival err_after) = false ->
     forall o, In o univ -> P o = true -> In o (fst (execute_streamed A eqb cands check arrival err_after)).
   Proof. exact (ListObjectsProofs.execute_streamed_complete A eqb eqb_spec). Qed.
+
+  (* the pipeline's output stage (DeduplicatingReceiver + Recv loop): duplicate-free, nothing
+     invented, sound when the delivered values are, complete without limit, exactly min(limit, distinct) *)
+  Theorem pipeline_recv_spec : forall (P : A -> bool) values limit,
+    NoDup (pipeline_recv A eqb values limit) /\
+    (forall o, In o (pipeline_recv A eqb values limit) -> In o values) /\
+    ((forall o, In o values -> P o = true) -> forall o, In o (pipeline_recv A eqb values limit) -> P o = true) /\
+    (limit = 0 -> forall o, In o values -> In o (pipeline_recv A eqb values limit)) /\
+    length (pipeline_recv A eqb values limit) =
+      match limit with
+      | O => length (distinct_objs A eqb (map (fun v => (v, NoFurtherEval)) values))
+      | S _ => Nat.min limit (length (distinct_objs A eqb (map (fun v => (v, NoFurtherEval)) values)))
+      end.
+  Proof. exact (ListObjectsProofs.pipeline_recv_spec A eqb eqb_spec). Qed.
 End Statements.
 
 Print Assumptions lo_sound.
@@ -125,6 +139,7 @@ Print Assumptions execute_sound.
 Print Assumptions execute_complete_partial.
 Print Assumptions execute_streamed_sound.
 Print Assumptions execute_streamed_complete.
+Print Assumptions pipeline_recv_spec.
 
 (* ---- non-vacuity: a concrete run.  Objects 1..5; permitted = odd numbers.  The candidate list
    repeats 1 (second arrival with the other status), offers 2 and 4 for further evaluation and
@@ -260,3 +275,9 @@ Proof.
   vm_compute. repeat split; auto. intros [H | []]. discriminate.
 Qed.
 Print Assumptions execute_complete_refuted.
+
+Example pipeline_recv_spec_ex :
+  pipeline_recv nat Nat.eqb [3; 1; 3; 5; 1] 0 = [3; 1; 5] /\
+  pipeline_recv nat Nat.eqb [3; 1; 3; 5; 1] 2 = [3; 1] /\
+  (forall o, In o [3; 1; 3; 5; 1] -> ex_P o = true).
+Proof. split; [reflexivity | split; [reflexivity|]]. intros o H. simpl in H. intuition; subst; reflexivity. Qed.
